@@ -12,7 +12,8 @@ from . import ramses_model as rm
 from . import unitmodel as um
 
 HYDRO_EXTRA = ["thermal_pressure", "pressure", "temperature", "internal_energy", "radiative_energy_1",
-               "radiative_energy_2", "scalar_01", "scalar_02", "metallicity", "passive_7"]
+               "radiative_energy_2", "radiative_energy_10", "radiative_energy_123", "scalar_01", "scalar_02",
+               "metallicity", "passive_7"]
 
 
 @st.composite
@@ -113,6 +114,7 @@ def output_cases(draw, ndims=(1, 2, 3), hilbert=None, with_part=None, with_sink=
     case = {
         "ndim": ndim, "ncpu": ncpu, "levelmin": levelmin, "levelmax": levelmax,
         "nboundary": nboundary, "boundary_dims": draw(st.integers(1, ndim)),
+        "coarse3": [draw(st.booleans()) for _ in range(3)],
         "noutput": draw(st.sampled_from([1, 1, 2, 5, 30])),
         "keysize": draw(st.sampled_from([8, 8, 16])),
         "boxlen": 1.0 if simple_units else draw(st.sampled_from([1.0, 2.0, 0.5, 1e-3, 1e3, 3.7])),
